@@ -4,6 +4,7 @@ mod hooks;
 mod model;
 mod proj;
 mod tokens;
+mod wire;
 mod worker;
 mod props;
 
